@@ -1667,6 +1667,24 @@ package leveldb
 //@   at before call (*version).get#1
 //@     assert [C01,C19:buffers-before-tables] calls("memGet") == old(calls("memGet")) + (auxm != nil ? 1 : 0) + (em != nil ? 1 : 0) + (fm != nil ? 1 : 0)
 
+// C01 / C03 / C11: what a write buffer says about a key. The buffer is searched at the lookup key itself (user key,
+// the reader's sequence number, seek kind), so that the first entry at or after it is the newest version visible to
+// the reader; the buffer "knows" the key exactly when that entry is of the same user key, answers with its value when
+// it is a value and with not-found when it is a deletion marker; an error of the search is passed on as an answer.
+//@ func memGet
+//@   props C01 C03 C11 C19
+//@   abstract keys
+//@   safety off
+//@   at before call (*DB).Find#1
+//@     assert [C01,C03,C11,C19:the-buffer-is-searched-at-the-lookup-key] ikcmp(arg0, ikey) == 0
+//@   at before stmt return true, nil, ErrNotFound
+//@     assert [C01,C03,C11,C19:a-deletion-marker-of-the-same-user-key-answers-not-found] kcmp(ukey, ukeyof(ikey)) == 0 && kt == keyTypeDel && err == nil
+//@   at before stmt return true, mv, nil
+//@     assert [C01,C03,C11,C19:a-value-of-the-same-user-key-answers-with-it] kcmp(ukey, ukeyof(ikey)) == 0 && kt == keyTypeVal && err == nil
+//@   at before stmt return true, nil, err
+//@     assert [C01,C03,C11,C19:only-a-real-error-is-an-answer] err != nil && err != ErrNotFound
+//@   ensures [C01,C03,C11,C19:no-answer-hides-no-error] !ok ==> (err == nil || err == ErrNotFound)
+
 // C02 (absolute moves): Seek positions the merged source at the earliest internal key of the target at the iterator's
 // own sequence number (so that nothing newer than the snapshot is looked at first and nothing of the target is
 // skipped); a source with nothing at or after the start leaves the iterator off the end, one with nothing at all
